@@ -2465,6 +2465,18 @@ EbErrorType read_tile_group_obu(Bitstrm *bs, EbDecHandle *dec_handle_ptr, TilesI
     return status;
 }
 
+#ifdef SVT_AV1_VERIF
+/* C10 observability (add-only): per-OBU trace of decode_multiple_obu written into caller-provided memory.
+   [0] capacity in records, [1] records written, [2] highest address + 1 loaded by the framing layer
+   (dec_bits_init / OBU header / OBU size), [3] decode_multiple_obu calls; records of 6 words from [4]:
+   address of the OBU, obu_type, header size, size-field bytes (Annex-B + own), payload size,
+   (status << 1 | frame_decoding_finished) after the payload, or -1 when the payload returned early */
+uint64_t *svt_av1_verif_obu_trace = NULL;
+static void svt_av1_verif_obu_read(const void *end) {
+    if (svt_av1_verif_obu_trace && (uint64_t)(uintptr_t)end > svt_av1_verif_obu_trace[2])
+        svt_av1_verif_obu_trace[2] = (uint64_t)(uintptr_t)end;
+}
+#endif
 // Decode all OBUs in a Frame
 EbErrorType decode_multiple_obu(EbDecHandle *dec_handle_ptr, uint8_t **data, size_t data_size,
                                 uint32_t is_annexb) {
@@ -2472,6 +2484,10 @@ EbErrorType decode_multiple_obu(EbDecHandle *dec_handle_ptr, uint8_t **data, siz
     EbErrorType status = EB_ErrorNone;
     ObuHeader   obu_header;
     int         frame_decoding_finished = 0;
+#ifdef SVT_AV1_VERIF
+    if (svt_av1_verif_obu_trace)
+        svt_av1_verif_obu_trace[3]++;
+#endif
 
 #if ENABLE_ENTROPY_TRACE
     enable_dump = 1;
@@ -2498,10 +2514,17 @@ EbErrorType decode_multiple_obu(EbDecHandle *dec_handle_ptr, uint8_t **data, siz
             return status;
 
         dec_bits_init(&bs, *data, data_size);
+#ifdef SVT_AV1_VERIF
+        const uint8_t *verif_obu_start = *data;
+        svt_av1_verif_obu_read(bs.buf);
+#endif
 
         if (is_annexb) {
             // read the size of OBU
             status = read_obu_size(&bs, data_size, &obu_header.payload_size, &length_size);
+#ifdef SVT_AV1_VERIF
+            svt_av1_verif_obu_read(bs.buf);
+#endif
             if (status != EB_ErrorNone)
                 return status;
 
@@ -2511,6 +2534,9 @@ EbErrorType decode_multiple_obu(EbDecHandle *dec_handle_ptr, uint8_t **data, siz
         }
 
         status = read_obu_header_size(&bs, &obu_header, data_size, &length_size);
+#ifdef SVT_AV1_VERIF
+        svt_av1_verif_obu_read(bs.buf);
+#endif
         if (status != EB_ErrorNone)
             return status;
 
@@ -2526,6 +2552,19 @@ EbErrorType decode_multiple_obu(EbDecHandle *dec_handle_ptr, uint8_t **data, siz
             return EB_Corrupt_Frame;
 
         dec_bits_init(&bs, *data, payload_size);
+#ifdef SVT_AV1_VERIF
+        svt_av1_verif_obu_read(bs.buf);
+        uint64_t *verif_rec = NULL;
+        if (svt_av1_verif_obu_trace && svt_av1_verif_obu_trace[1] < svt_av1_verif_obu_trace[0]) {
+            verif_rec    = svt_av1_verif_obu_trace + 4 + 6 * svt_av1_verif_obu_trace[1]++;
+            verif_rec[0] = (uint64_t)(uintptr_t)verif_obu_start;
+            verif_rec[1] = (uint64_t)obu_header.obu_type;
+            verif_rec[2] = (uint64_t)obu_header.size;
+            verif_rec[3] = (uint64_t)(*data - verif_obu_start) - (uint64_t)obu_header.size;
+            verif_rec[4] = (uint64_t)payload_size;
+            verif_rec[5] = (uint64_t)-1;
+        }
+#endif
 
         switch (obu_header.obu_type) {
         case OBU_TEMPORAL_DELIMITER:
@@ -2599,6 +2638,10 @@ EbErrorType decode_multiple_obu(EbDecHandle *dec_handle_ptr, uint8_t **data, siz
         default: PRINT_NAME("**************UNKNOWN OBU*******************"); break;
         }
 
+#ifdef SVT_AV1_VERIF
+        if (verif_rec)
+            verif_rec[5] = ((uint64_t)(uint32_t)status << 1) | (uint64_t)(frame_decoding_finished != 0);
+#endif
         *data += payload_size;
         data_size -= payload_size;
         if (!data_size)
